@@ -45,7 +45,10 @@ theorem decode_encode (bitrate : Nat) (hb : bitrate < 256 ^ 4) (q : Nat → Nat)
   rw [t4 _ _ (beBytes_length 4 _), ofBe_beBytes 4 magic (by decide)]
   simp only [ne_eq, not_true_eq_false, if_false]
   rw [d4 _ _ (beBytes_length 4 _), t4 _ _ (beBytes_length 4 _), ofBe_beBytes 4 28 (by decide)]
-  simp only [show ¬ (28 < 24) by decide, if_false]
+  have hl9 : ¬ (beBytes 4 magic ++ (beBytes 4 28 ++ (beBytes 4 0xffffffff ++ (beBytes 4 pcm16 ++
+      (beBytes 4 bitrate ++ (beBytes 4 1 ++ ([0, 0, 0, 0] ++ xs.flatMap fun x => beBytes 2 (q x)))))))).length < 9 := by
+    simp [beBytes_length]; omega
+  simp only [hl9, show ¬ (28 < 24) by decide, if_false]
   have hlen2 : ¬ (beBytes 4 magic ++ (beBytes 4 28 ++ (beBytes 4 0xffffffff ++ (beBytes 4 pcm16 ++
       (beBytes 4 bitrate ++ (beBytes 4 1 ++ ([0, 0, 0, 0] ++ xs.flatMap fun x => beBytes 2 (q x)))))))).length < 28 := by
     simp [beBytes_length]; omega
